@@ -46,6 +46,7 @@ Settings == {
   S("grpc_proxy.url", "grpc_proxy.url", "BAZEL_REMOTE_GRPC_PROXY_URL", <<"grpc_proxy", "url">>, "string", "grpc://backend.example:9092", "grpcs://backend.example:9093"),
   S("gcs_proxy.bucket", "gcs_proxy.bucket", "BAZEL_REMOTE_GCS_BUCKET", <<"gcs_proxy", "bucket">>, "string", "my-bucket", "other-bucket"),
   S("s3.bucket", "s3.bucket", "BAZEL_REMOTE_S3_BUCKET", <<"s3_proxy", "bucket">>, "string", "s3-bucket", "s3-other"),
+  S("azblob.storage_account", "azblob.storage_account", "BAZEL_REMOTE_AZBLOB_STORAGE_ACCOUNT", <<"azblob_proxy", "storage_account">>, "string", "acct1", "acct2"),
   S("ldap.url", "ldap.url", "BAZEL_REMOTE_LDAP_URL", <<"ldap", "url">>, "string", "ldaps://ldap.example:636", "ldap://ldap.example")
 }
 
@@ -66,12 +67,18 @@ Dependents == {
   S("ldap.cache_time", "ldap.cache_time", "BAZEL_REMOTE_LDAP_CACHE_TIME", <<"ldap", "cache_time">>, "seconds", "100", "7200"),
   S("ldap.username_attribute", "ldap.username_attribute", "BAZEL_REMOTE_LDAP_USER_ATTRIBUTE", <<"ldap", "username_attribute">>, "string", "cn", "sAMAccountName"),
   S("gcs_proxy.use_default_credentials", "gcs_proxy.use_default_credentials", "BAZEL_REMOTE_GCS_USE_DEFAULT_CREDENTIALS", <<"gcs_proxy", "use_default_credentials">>, "bool", "true", "true"),
-  S("http_proxy.ca_file", "http_proxy.ca_file", "BAZEL_REMOTE_HTTP_PROXY_CA_FILE", <<"http_proxy", "ca_file">>, "string", "/tmp/ca.pem", "/etc/ca.pem")
+  S("http_proxy.ca_file", "http_proxy.ca_file", "BAZEL_REMOTE_HTTP_PROXY_CA_FILE", <<"http_proxy", "ca_file">>, "string", "/tmp/ca.pem", "/etc/ca.pem"),
+  S("azblob.tenant_id", "azblob.tenant_id", "BAZEL_REMOTE_AZBLOB_TENANT_ID", <<"azblob_proxy", "tenant_id">>, "string", "tenant-1", "tenant-2"),
+  S("azblob.container_name", "azblob.container_name", "BAZEL_REMOTE_AZBLOB_CONTAINER_NAME", <<"azblob_proxy", "container_name">>, "string", "container1", "container2"),
+  S("azblob.auth_method", "azblob.auth_method", "BAZEL_REMOTE_AZBLOB_AUTH_METHOD", <<"azblob_proxy", "auth_method">>, "string", "shared_key", "shared_key"),
+  S("azblob.shared_key", "azblob.shared_key", "BAZEL_REMOTE_AZBLOB_SHARED_KEY", <<"azblob_proxy", "shared_key">>, "string", "a2V5MQ==", "a2V5Mg=="),
+  S("azblob.prefix", "azblob.prefix", "BAZEL_REMOTE_AZBLOB_PREFIX", <<"azblob_proxy", "prefix">>, "string", "cache/az", "p2")
 }
 Needs(id) == CASE id \in {"s3.endpoint", "s3.prefix", "s3.auth_method", "s3.region"} -> "s3.bucket"
                [] id \in {"ldap.base_dn", "ldap.cache_time", "ldap.username_attribute"} -> "ldap.url"
                [] id = "gcs_proxy.use_default_credentials" -> "gcs_proxy.bucket"
                [] id = "http_proxy.ca_file" -> "http_proxy.url"
+               [] id \in {"azblob.tenant_id", "azblob.container_name", "azblob.auth_method", "azblob.shared_key", "azblob.prefix"} -> "azblob.storage_account"
                [] OTHER -> ""
 
 All == Settings \cup Deprecated \cup Dependents
@@ -80,16 +87,19 @@ ById(id) == CHOOSE s \in All : s.id = id
 \* a configuration: function from setting id to value index (1 or 2)
 Base == [dir |-> "/tmp/verif-cache-dir", max_size |-> "3"]
 
-Proxies == {"http_proxy.url", "grpc_proxy.url", "gcs_proxy.bucket", "s3.bucket"}
+Proxies == {"http_proxy.url", "grpc_proxy.url", "gcs_proxy.bucket", "s3.bucket", "azblob.storage_account"}
+AzCompanions == {<<"azblob.tenant_id", 1>>, <<"azblob.container_name", 1>>, <<"azblob.auth_method", 1>>, <<"azblob.shared_key", 1>>}
 
 \* fix-ups so that a combination is expressible and valid by itself: a setting that needs
 \* a companion brings it along
 Companions(id, v) ==
   CASE id = "ldap.url" -> {<<"ldap.base_dn", 1>>}
     [] id = "s3.bucket" -> {<<"s3.auth_method", 1>>, <<"s3.endpoint", 1>>}
+    [] id = "azblob.storage_account" -> AzCompanions
     [] id = "http_proxy.ca_file" -> {<<"http_proxy.url", 2>>}
     [] Needs(id) # "" -> {<<Needs(id), 1>>} \cup (IF Needs(id) = "ldap.url" THEN {<<"ldap.base_dn", 1>>}
-                                               ELSE IF Needs(id) = "s3.bucket" THEN {<<"s3.auth_method", 1>>, <<"s3.endpoint", 1>>} ELSE {})
+                                               ELSE IF Needs(id) = "s3.bucket" THEN {<<"s3.auth_method", 1>>, <<"s3.endpoint", 1>>}
+                                               ELSE IF Needs(id) = "azblob.storage_account" THEN AzCompanions \ {c \in AzCompanions : c[1] = id} ELSE {})
     [] OTHER -> {}
 
 Choice == {<<s.id, v>> : s \in All, v \in {1, 2}}
@@ -127,7 +137,8 @@ InvalidClasses == {"missing_dir", "missing_max_size", "zero_max_size", "negative
                    "empty_unix_http", "empty_unix_grpc", "tls_cert_without_key", "tls_key_without_cert", "ca_without_cert",
                    "unauthenticated_reads_without_auth", "two_proxies_http_s3", "two_proxies_grpc_gcs", "zero_max_blob_size",
                    "negative_max_proxy_blob_size", "asset_api_without_grpc", "bad_access_log_level", "bad_log_timezone",
-                   "ldap_without_base_dn", "http_proxy_wrong_scheme"}
+                   "ldap_without_base_dn", "http_proxy_wrong_scheme", "two_proxies_s3_azblob", "two_proxies_http_azblob",
+                   "two_proxies_grpc_azblob", "two_proxies_gcs_azblob", "azblob_without_container", "azblob_bad_auth_method"}
 
 VARIABLE cur
 Init == cur \in ValidCombos
